@@ -177,11 +177,8 @@ type ByteStealer struct {
 }
 
 func (s *ByteStealer) Write(p []byte) (n int, err error) {
-	if nil == s.Data {
-		s.Data = p[0:len(p):len(p)]
-	} else {
-		s.Data = append(s.Data, p...)
-	}
+	// a Writer must not retain p: the source may reuse its buffer for the next fragment.
+	s.Data = append(s.Data, p...)
 	return len(p), nil
 }
 
